@@ -395,6 +395,7 @@ func runC07(r *Rec) {
 	// ---- 3. gated messages: with and without the permission, through the real msg server
 	r.Mark("gated messages")
 	ms := govkeeper.NewMsgServerImpl(k)
+	var gateN, gatePid uint64
 	type gate struct {
 		name string
 		perm govtypes.PermValue
@@ -429,9 +430,31 @@ func runC07(r *Rec) {
 			_, e := ms.WhitelistRolePermission(sdk.WrapSDKContext(cc), govtypes.NewMsgWhitelistRolePermission(who, fmt.Sprint(ra), 79))
 			return e
 		}},
+		{"SubmitProposal", govtypes.PermCreateSetNetworkPropertyProposal, func(cc sdk.Context, who sdk.AccAddress) error {
+			gateN++
+			m, _ := govtypes.NewMsgSubmitProposal(who, "t", "d", govtypes.NewSetNetworkPropertyProposal(govtypes.MinIdentityApprovalTip, govtypes.NetworkPropertyValue{Value: 4000 + gateN}))
+			_, e := ms.SubmitProposal(sdk.WrapSDKContext(cc), m)
+			return e
+		}},
+		{"VoteProposal", govtypes.PermVoteSetNetworkPropertyProposal, func(cc sdk.Context, who sdk.AccAddress) error {
+			// a proposal of that type submitted by the sudo account; the vote option alternates so that a repeated vote
+			// really changes the stored one
+			if gatePid == 0 {
+				m, _ := govtypes.NewMsgSubmitProposal(w.addrs[0], "t", "d", govtypes.NewSetNetworkPropertyProposal(govtypes.MinIdentityApprovalTip, govtypes.NetworkPropertyValue{Value: 3999}))
+				res, e := ms.SubmitProposal(sdk.WrapSDKContext(cc), m)
+				if e != nil {
+					return fmt.Errorf("gate set-up: %v", e)
+				}
+				gatePid = res.ProposalID
+			}
+			gateN++
+			_, e := ms.VoteProposal(sdk.WrapSDKContext(cc), govtypes.NewMsgVoteProposal(gatePid, who, govtypes.VoteOption(1+gateN%2), sdk.ZeroDec()))
+			return e
+		}},
 	}
 	for _, g := range gates {
-		for _, mode := range []string{"without", "blacklisted", "with"} {
+		for _, mode := range []string{"without", "blacklisted", "with", "lost"} {
+			gatePid = 0
 			cc, _ := base.CacheContext()
 			a, ok := k.GetNetworkActorByAddress(cc, w.addrs[2])
 			if !ok {
@@ -454,7 +477,7 @@ func runC07(r *Rec) {
 				a = govtypes.NewDefaultActor(w.addrs[2])
 			}
 			switch mode {
-			case "with":
+			case "with", "lost":
 				k.AddWhitelistPermission(cc, a, g.perm)
 			case "blacklisted":
 				// whitelisted through a role, blacklisted personally
@@ -462,6 +485,17 @@ func runC07(r *Rec) {
 				k.AssignRoleToAccount(cc, w.addrs[2], rb)
 				a, _ = k.GetNetworkActorByAddress(cc, w.addrs[2])
 				k.AddBlacklistPermission(cc, a, g.perm)
+			}
+			if mode == "lost" {
+				// the actor uses the permission once, then loses it (whitelist entry removed): the SAME call again must be refused
+				func() {
+					defer func() { recover() }()
+					g.call(cc, w.addrs[2])
+				}()
+				a, _ = k.GetNetworkActorByAddress(cc, w.addrs[2])
+				if err := k.RemoveWhitelistedPermission(cc, a, g.perm); err != nil {
+					r.Fail("C07/gate/setup", "could not take the permission away for gate test "+g.name+": "+err.Error(), nil)
+				}
 			}
 			holds := govkeeper.CheckIfAllowedPermission(cc, k, w.addrs[2], g.perm)
 			err := func() (e error) {
